@@ -227,6 +227,8 @@ def _shared_state(ck, repo):
         ("tartiflette/utils/directives.py::resolver_executor", "kwargs"): "**kwargs is a new dict per call",
         ("tartiflette/utils/directives.py::subscription_generator", "kwargs"): "**kwargs is a new dict per call",
         ("tartiflette/schema/introspection.py::__schema_resolver", "info"): "ResolveInfo is built per field execution",
+        ("tartiflette/directive/builtins/non_introspectable.py::NonIntrospectableDirective.on_schema_execution", "schema"):
+            "constant False written idempotently before any resolver of the request starts (not inside the concurrent part of a request)",
         ("tartiflette/schema/introspection.py::__type_resolver", "info"): "ResolveInfo is built per field execution",
     }
     for key, (f, s, c, ok, reason) in sorted(mutated.items()):
